@@ -140,6 +140,13 @@ theorem nwu_filter_no_containment (items : List (List MR)) : (nwuParse items).Pa
 theorem nwu_filter_keeps_nested :
     nwuParse [[⟨0, 10, 0⟩], [⟨2, 5, 1⟩]] = [⟨0, 10, 0⟩, ⟨2, 5, 1⟩] := by decide
 
+/-- repaired filter (a candidate contained in an accepted result is dropped too): no two results are nested,
+whatever the (extractor, parser) items return. -/
+theorem nwu_filter_sym_no_nesting (items : List (List MR)) : (nwuParseSym items).Pairwise NoNesting :=
+  nwuParseGoSym_pairwise items [] [] (by simp)
+
+example : nwuParseSym [[⟨0, 10, 0⟩], [⟨2, 5, 1⟩, ⟨12, 14, 2⟩]] = [⟨0, 10, 0⟩, ⟨12, 14, 2⟩] := by decide
+
 /-
 Full-strength statement, which the code does not satisfy:
   theorem addTo_disjoint_full : dst.Pairwise Disjoint → (addTo skip dst src).Pairwise Disjoint
